@@ -36,7 +36,7 @@ HEADER = "From Ropt Require Import Model.Layout Model.Store."
 SHARD_SIZE = 24
 PARALLEL = True
 CASE_TIMEOUT = 120
-EXHAUSTIVE = {"quick": False, "thorough": True}
+EXHAUSTIVE = {"quick": False, "thorough": False}   # the thorough grid enumerates a sub-space only (see RULE)
 
 KNOWN_HUGE = "C06:huge-garbage-overflow"
 
@@ -169,6 +169,10 @@ def gen_one(rng, *, small=False, region=None):
             calls.append(["F", [rng.randrange(npts)]])
         elif region and len(calls) == 1:
             calls.append(["G", calls[0][1][0]])
+        elif t < 0.12 and any(c[0] == "F" for c in calls):
+            # the same function request again: a memoising evaluator returns the same object
+            prev = rng.choice([c for c in calls if c[0] == "F"])
+            calls.append(["F", list(prev[1])])
         elif t < 0.35:
             B = rng.randint(1, 2 if small else 4)
             calls.append(["F", [rng.randrange(npts) for _ in range(B)]])
@@ -220,7 +224,7 @@ def _grid_cases():
 
 
 def gen_cases(tier, rng):
-    n = 360 if tier == "quick" else 6000
+    n = 440 if tier == "quick" else 6000
     for i in range(n):
         reg = None
         if i % 12 == 5:
@@ -229,7 +233,7 @@ def gen_cases(tier, rng):
             reg = "confilter"
         yield gen_one(rng, small=(i % 5 == 0), region=reg)
     # small separate stream: garbage >= 1e150 in run B (region of the known finding C06:huge-garbage-overflow)
-    for i in range(16 if tier == "quick" else 200):
+    for i in range(20 if tier == "quick" else 200):
         c = gen_one(rng, small=(i % 2 == 0))
         c["filters"], c["ofil"], c["cfil"] = [], None, None
         if all(c["weights"]) and c["R"] > 1:
